@@ -20,9 +20,14 @@ type Prober struct {
 	probe          Probe
 	name           string
 	onCheckEndFunc func(bool, bool, string)
+	checker        health.ICheckable
 	hc             *health.Health
 	hcMtx          sync.Mutex // go-health's Start and Stop are not safe for concurrent use
 	stopped        atomic.Bool
+	// generation is advanced by every Start and Stop: results of checks that belong to an
+	// earlier start (a stopped checker may still complete a run or two) are dropped, and
+	// every start begins with fresh failure counters
+	generation atomic.Int64
 }
 
 func New(name string, probe Probe, onCheckEnd func(bool, bool, string)) (*Prober, error) {
@@ -31,54 +36,77 @@ func New(name string, probe Probe, onCheckEnd func(bool, bool, string)) (*Prober
 		probe:          probe,
 		name:           name,
 		onCheckEndFunc: onCheckEnd,
-		hc:             health.New(),
 	}
-	p.hc.DisableLogging()
-	if probe.Exec != nil {
-		err := p.addProber(p.getExecChecker)
-		if err != nil {
-			return nil, err
-		}
-		return p, err
+	var err error
+	switch {
+	case probe.Exec != nil:
+		p.checker, err = p.getExecChecker()
+	case probe.HttpGet != nil:
+		p.checker, err = p.getHttpChecker()
+	default:
+		return nil, fmt.Errorf("no probes [http_get, exec] configured for %s", name)
 	}
-	if probe.HttpGet != nil {
-		err := p.addProber(p.getHttpChecker)
-		if err != nil {
-			return nil, err
-		}
-		return p, err
+	if err != nil {
+		return nil, err
 	}
-	return nil, fmt.Errorf("no probes [http_get, exec] configured for %s", name)
+	return p, nil
 }
 
 func (p *Prober) Start() {
+	p.hcMtx.Lock()
+	if p.hc != nil {
+		// still monitoring (the process restarted by itself): carry on
+		p.hcMtx.Unlock()
+		return
+	}
+	generation := p.generation.Add(1)
+	p.stopped.Store(false)
+	p.hcMtx.Unlock()
 	go func() {
-		p.stopped.Store(false)
 		time.Sleep(time.Duration(p.probe.InitialDelay) * time.Second)
-		if p.stopped.Load() {
+		p.hcMtx.Lock()
+		defer p.hcMtx.Unlock()
+		if p.stopped.Load() || p.generation.Load() != generation || p.hc != nil {
 			return
 		}
-		p.hcMtx.Lock()
-		err := p.hc.Start()
-		p.hcMtx.Unlock()
+		hc := health.New()
+		hc.DisableLogging()
+		err := hc.AddCheck(&health.Config{
+			Name:     p.name,
+			Checker:  p.checker,
+			Interval: time.Duration(p.probe.PeriodSeconds) * time.Second,
+			Fatal:    false,
+			OnComplete: func(state *health.State) {
+				p.healthCheckCompleted(generation, state)
+			},
+		})
+		if err == nil {
+			err = hc.Start()
+		}
 		if err != nil && !errors.Is(err, health.ErrAlreadyRunning) {
 			log.Error().Err(err).Msgf("%s failed to start monitoring", p.name)
 			return
 		}
+		p.hc = hc
 		log.Debug().Msgf("%s started monitoring", p.name)
 	}()
 }
 
 func (p *Prober) Stop() {
+	p.hcMtx.Lock()
+	defer p.hcMtx.Unlock()
+	p.generation.Add(1)
+	p.stopped.Store(true)
 	if p.hc != nil {
-		p.hcMtx.Lock()
 		_ = p.hc.Stop()
-		p.hcMtx.Unlock()
-		p.stopped.Store(true)
+		p.hc = nil
 	}
 }
 
-func (p *Prober) healthCheckCompleted(state *health.State) {
+func (p *Prober) healthCheckCompleted(generation int64, state *health.State) {
+	if p.generation.Load() != generation {
+		return
+	}
 	fatal := false
 	ok := false
 	if state.ContiguousFailures == int64(p.probe.FailureThreshold) {
@@ -91,20 +119,6 @@ func (p *Prober) healthCheckCompleted(state *health.State) {
 		return
 	}
 	p.onCheckEndFunc(ok, fatal, state.Err)
-}
-
-func (p *Prober) addProber(factory func() (health.ICheckable, error)) error {
-	checker, err := factory()
-	if err != nil {
-		return err
-	}
-	return p.hc.AddCheck(&health.Config{
-		Name:       p.name,
-		Checker:    checker,
-		Interval:   time.Duration(p.probe.PeriodSeconds) * time.Second,
-		Fatal:      false,
-		OnComplete: p.healthCheckCompleted,
-	})
 }
 
 func (p *Prober) getHttpChecker() (health.ICheckable, error) {
